@@ -240,22 +240,34 @@ def fixed_rule(ctx, prefix='C05-FIXED'):
     for fn in [f for f in repo.rule_funcs() if f.mod is mod]:
         reads = [x for x in walk_no_nested(fn.node) if isinstance(x, ast.Subscript) and isinstance(x.ctx, ast.Load)
                  and isinstance(x.value, ast.Attribute) and x.value.attr == 'vars']
-        stores = [x for x in walk_no_nested(fn.node) if isinstance(x, ast.Subscript) and isinstance(x.ctx, ast.Store)
-                  and isinstance(x.value, ast.Attribute) and x.value.attr == 'fixed_param_values']
+        # stores into <translator>.fixed_param_values, directly or through a local alias of that dict (`fixed = root.fixed_param_values`)
+        from ..q import alias_map
+        am = {}
+        sc = fn
+        while sc is not None:
+            for k_, v_ in alias_map(sc.node).items(): am.setdefault(k_, v_)
+            sc = sc.parent
+        def fpv_owner(x):
+            """text of the translator whose fixed_param_values the subscript `x` addresses, or None"""
+            if isinstance(x.value, ast.Attribute) and x.value.attr == 'fixed_param_values': return x.value.value
+            if isinstance(x.value, ast.Name) and am.get(x.value.id, '').endswith('.fixed_param_values'):
+                return ast.parse(am[x.value.id][:-len('.fixed_param_values')], mode='eval').body
+            return None
+        stores = [x for x in walk_no_nested(fn.node) if isinstance(x, ast.Subscript) and isinstance(x.ctx, ast.Store) and fpv_owner(x) is not None]
         if not reads and not stores: continue
         g = cg.cfg(fn)
         # enclosing function provides the bindings of captured names
         scope = fn
         for r in reads + stores:
             n += 1
-            recv = r.value.value
+            recv = fpv_owner(r) if r in stores else r.value.value
             ok, why = is_root_translator(scope, recv)
             ctx.ob(prefix + '.value-dependent-translation-uses-root-translator', fn, r, ok,
                    '' if ok else '%s is not the root translator (%s): inside a subquery the recorded value lands on a sub-translator that '
                    'Query._get_translator never compares, so the SQL cached for the first value is reused for every later value' % (norm(recv), why), node=r)
         for r in reads:
             rn = cfg_node_of(g, r)
-            sn = [x for s in stores if norm(s.value.value) == norm(r.value.value) and norm(s.slice) == norm(r.slice) for x in cfg_node_of(g, s)]
+            sn = [x for s in stores if norm(fpv_owner(s)) == norm(r.value.value) and norm(s.slice) == norm(r.slice) for x in cfg_node_of(g, s)]
             ok = bool(sn) and all(g.must_pass_after(x, sn, exits=[g.exit]) for x in rn)
             ctx.ob(prefix + '.value-read-is-recorded', fn, r, ok,
                    '' if ok else 'the concrete value %s is used for translation but not recorded in fixed_param_values[%s] on every path' % (norm(r), norm(r.slice)), node=r)
